@@ -402,4 +402,171 @@ Proof.
     + intros sid rq [H|[H|H]]; try discriminate. exfalso. exact (Hnd sid rq H).
 Qed.
 
+Lemma G_live c s ph fr c' d :
+  feed c (IIn (RFrame fr)) = c' -> sc_sl_done c' = false -> sc_out c' = d ++ sc_out c ->
+  (RS.allowed s (RS.Frame (abs_frame fr)) (resolve s (RS.Frame (abs_frame fr)) (classify (sf_sid fr) (rev (filter noisy d)))) = true \/
+   known_deviation hstate c s (RFrame fr) = true) ->
+  live_tuple hstate c' (after_outs (RS.spec_next s (RS.Frame (abs_frame fr)) (resolve s (RS.Frame (abs_frame fr)) (classify (sf_sid fr) (rev (filter noisy d))))) d)
+             (ph_next ph (IIn (RFrame fr))) ->
+  (forall sid rq, In (ODispatch sid rq) d -> ph_next ph (IIn (RFrame fr)) sid = RS.PDone) ->
+  G c s ph (RFrame fr) (feed c (IIn (RFrame fr))).
+Proof.
+  intros E Hsl Ho Ha Hl Hd. rewrite E. exists d. split; [exact Ho|]. cbn [abs_input input_sid]. cbv zeta.
+  split; [exact Ha|]. rewrite Hsl. split; [exact Hl | exact Hd].
+Qed.
+
+Lemma Zn_of_odd n : N.odd n = true -> (n =? 0) = false.
+Proof. intro O. destruct (n =? 0) eqn:Z; [apply N.eqb_eq in Z; rewrite Z in O; discriminate | reflexivity]. Qed.
+
+(* the verdicts for HEADERS on an idle odd stream *)
+Lemma idle_headers_verdicts s fr : RS.block s = None -> N.odd (sf_sid fr) = true -> sf_kind fr = KHeaders ->
+  RS.st_of s (sf_sid fr) = RS.Idle ->
+  RS.verdicts s (RS.Frame (abs_frame fr)) =
+  (if sf_dep fr =? sf_sid fr then [RS.SE c_ProtocolError] else if RS.goaway s then [RS.VIgnore] else [RS.VProcess])
+  ++ RS.policy ++ RS.block_errors.
+Proof.
+  intros B O K Hi. rewrite verdicts_stream; [|exact B | intro Z; rewrite Z in O; discriminate | rewrite K; exact I].
+  unfold RS.on_stream, RS.by_state, abs_frame. cbn [RS.f_kind RS.f_sid RS.f_self]. rewrite Hi, K. cbn [abs_kind].
+  rewrite <- N.negb_odd, O. cbn [negb]. rewrite app_nil_r. reflexivity.
+Qed.
+
+(* HEADERS for a new stream refused: RST_STREAM(REFUSED_STREAM), its block decoded and dropped *)
+Lemma G_refuse c s ph fr ec' :
+  Sim c s ph -> sc_sl_done c = false -> seq_ok c fr ec' -> N.odd (sf_sid fr) = true -> tbl c (sf_sid fr) = None ->
+  sf_kind fr = KHeaders -> ring_find c (sf_sid fr) = None -> sc_highestID c < sf_sid fr ->
+  feed c (IIn (RFrame fr)) =
+    fst (discard_or_break (discard_header_block dec_field cfg
+           (mark_closed (write_reset (upd_highestID (upd_expectCont c ec') (sf_sid fr)) (sf_sid fr) c_RefusedStreamError) (sf_sid fr) true) fr)) ->
+  G c s ph (RFrame fr) (feed c (IIn (RFrame fr))).
+Proof.
+  intros HS Hsl SQ Od Tn KK Rn Hgt E.
+  pose proof (S_aux _ _ _ _ HS) as [AT AH]. pose proof (A_wl _ _ AT) as Hwl. pose proof (S_wf _ _ _ _ HS) as W.
+  pose proof (Zn_of_odd _ Od) as Zn.
+  assert (EC : sc_expectCont c = 0 /\ ec' = if flag_has (sf_flags fr) FL_EH then 0 else sf_sid fr).
+  { destruct SQ as [(E0 & _ & ->)|(_ & K & _)]; [|congruence]. split; [exact E0|]. rewrite KK. cbn [fkind_eqb andb].
+    destruct (flag_has _ _); reflexivity. }
+  destruct EC as [E0 EC].
+  assert (BN : RS.block s = None) by (rewrite (block_of_ec hstate c s (S_blk _ _ _ _ HS)), E0; reflexivity).
+  destruct (proj2 (unknown_state c s ph _ HS Od Tn) Hgt) as [Hidle _].
+  pose proof (idle_headers_verdicts s fr BN Od KK Hidle) as V.
+  set (cR := mark_closed (write_reset (upd_highestID (upd_expectCont c ec') (sf_sid fr)) (sf_sid fr) c_RefusedStreamError) (sf_sid fr) true) in *.
+  assert (RingR : sc_ring cR = sc_ring (mark_closed c (sf_sid fr) true) /\ sc_oldest cR = sc_oldest (mark_closed c (sf_sid fr) true)).
+  { apply mark_closed_ring_ext; sc_rw; reflexivity. }
+  assert (OutR : sc_out cR = [ORst (sf_sid fr) c_RefusedStreamError] ++ sc_out c).
+  { unfold cR. rewrite sc_out_mark_closed. unfold write_reset. rewrite sc_out_emit. sc_cbn. rewrite Hwl, Hsl. reflexivity. }
+  assert (SlR : sc_sl_done cR = false) by (unfold cR; sc_rw; exact Hsl).
+  assert (WlR : sc_wl_dead cR = false) by (unfold cR; sc_rw; exact Hwl).
+  destruct (discard_header_block_spec hstate dec_field cfg cR fr) as [DD DE].
+  destruct (discard_header_block dec_field cfg cR fr) as [cD [e|]] eqn:DH; cbn [fst snd] in DD, DE.
+  - (* the block does not decode: connection error *)
+    apply (G_discard_break c s ph fr cR cD e [ORst (sf_sid fr) c_RefusedStreamError] E DE DD OutR SlR WlR).
+    + intros sid rq [H|[]]; discriminate.
+    + intros o [<-|[]]; reflexivity.
+    + left. destruct e as [code|code|]; cbn in DE; try contradiction; apply allowed_table; rewrite V.
+      * destruct DE as [-> | [-> | ->]]; destruct (sf_dep fr =? sf_sid fr), (RS.goaway s); reflexivity.
+      * destruct (sf_dep fr =? sf_sid fr), (RS.goaway s); reflexivity.
+  - (* refused *)
+    cbn [discard_or_break fst cont] in E. destruct DD as (dv & di & dp & dn & DD).
+    assert (Fc : sc_strms cD = sc_strms c /\ sc_lastID cD = sc_lastID c /\ sc_rl_done cD = sc_rl_done c /\ sc_wl_dead cD = sc_wl_dead c /\
+                 sc_readerQ cD = sc_readerQ c /\ sc_highestID cD = sf_sid fr /\ sc_sl_done cD = false /\ sc_closing cD = sc_closing c /\
+                 sc_expectCont cD = ec' /\ sc_out cD = [ORst (sf_sid fr) c_RefusedStreamError] ++ sc_out c /\
+                 sc_ring cD = sc_ring (mark_closed c (sf_sid fr) true) /\ sc_oldest cD = sc_oldest (mark_closed c (sf_sid fr) true)).
+    { rewrite DD. sc_cbn. repeat split; try exact OutR; try apply RingR; try exact SlR;
+        unfold cR; sc_rw; first [reflexivity | assumption]. }
+    destruct Fc as (F1 & F2 & F3 & F4 & F5 & F6 & F7 & F8 & F9 & F10 & F11 & F12).
+    assert (RF : forall id, ring_find cD id = ring_find (mark_closed c (sf_sid fr) true) id) by (intro id; apply ring_find_ext, F11).
+    assert (Tb : forall id, tbl cD id = tbl c id) by (intro id; unfold SrvRfcDefs.tbl; rewrite F1; reflexivity).
+    (* the reaction *)
+    assert (CL : classify (sf_sid fr) (rev (filter noisy [ORst (sf_sid fr) c_RefusedStreamError])) = RS.StreamErr c_RefusedStreamError).
+    { cbn [filter noisy strip_late rev app]. unfold classify. cbn [first_some is_goaway strip_late existsb is_exit orb]. rewrite Zn.
+      cbn [first_some is_rst strip_late]. rewrite N.eqb_refl. reflexivity. }
+    apply (G_live c s ph fr cD [ORst (sf_sid fr) c_RefusedStreamError] E F7 F10); rewrite ?CL; cbn [resolve].
+    + left. apply allowed_table. rewrite V. destruct (sf_dep fr =? sf_sid fr), (RS.goaway s); reflexivity.
+    + set (s1 := RS.spec_next s (RS.Frame (abs_frame fr)) (RS.StreamErr c_RefusedStreamError)).
+      assert (W1 : wf s1) by (apply wf_spec_next, W).
+      assert (S1sid : RS.st_of s1 (sf_sid fr) = RS.Closed RS.WeRst).
+      { unfold s1. rewrite (st_of_spec_next_same s (abs_frame fr)) by exact Od. cbn [conn_err next_st].
+        change (RS.f_sid (abs_frame fr)) with (sf_sid fr). rewrite Hidle. unfold RS.reset, abs_frame. cbn [RS.f_kind]. rewrite KK. reflexivity. }
+      assert (S1hi : RS.highest s1 = sf_sid fr).
+      { unfold s1. rewrite highest_spec_next by exact W. cbn [conn_err negb andb next_st]. change (RS.f_sid (abs_frame fr)) with (sf_sid fr).
+        rewrite Zn, Hidle. unfold RS.reset, abs_frame. cbn [RS.f_kind negb andb]. rewrite KK. cbn [abs_kind].
+        rewrite (S_hi _ _ _ _ HS). lia. }
+      assert (AO : after_outs s1 [ORst (sf_sid fr) c_RefusedStreamError] = RS.spec_sent s1 (RS.SentRst (sf_sid fr))) by reflexivity.
+      assert (NotIn : forall st, In st (sc_strms c) -> st_id st <> sf_sid fr).
+      { intros st H X. pose proof (In_search _ _ (A_nodup _ _ AT) H) as Y. rewrite X in Y. unfold SrvRfcDefs.tbl in Tn. congruence. }
+      apply (live_tuple_one hstate c cD s _ ph _ (sf_sid fr) HS).
+      * (* Aux *)
+        split.
+        -- apply (AuxT_ring_change hstate c cD AT F1 F2 F3 F4 F5); [lia | | ].
+           ++ eapply ring_ok_ext; [exact F11 | exact F12 | apply ring_ok_mark, (A_ring _ _ AT)].
+           ++ intros st H. rewrite RF. apply ring_find_mark_other; [apply (A_ring _ _ AT) | apply NotIn, H].
+        -- destruct AH as [H1 H2 H3 H4]. constructor.
+           ++ intros st H Hf. rewrite F1 in H. pose proof (H1 st H Hf) as X. rewrite E0 in X.
+              destruct (A_ids _ _ AT st H) as [O _]. rewrite X in O. discriminate.
+           ++ intros st Hne H. rewrite F9 in Hne, H. rewrite Tb in H.
+              destruct (ec'_cases c fr ec' SQ) as [Z|Z]; [congruence | rewrite Z in H; congruence].
+           ++ rewrite F9. intro Hne. destruct (ec'_cases c fr ec' SQ) as [Z|Z]; [congruence | rewrite Z; exact Od].
+           ++ rewrite DE. destruct (flag_has (sf_flags fr) FL_EH); [congruence|]. intros _. split; [rewrite Tb; exact Tn | rewrite F6; lia].
+      * intros id Hne. split; [rewrite Tb; reflexivity|]. rewrite RF. apply ring_find_mark_other; [apply (A_ring _ _ AT) | exact Hne].
+      * intros _. rewrite AO. unfold SrvRfcDefs.view. rewrite Tb, Tn, RF, ring_find_mark_same by apply (A_ring _ _ AT). rewrite Rn.
+        cbn [rel1 rel]. rewrite st_of_spec_sent by exact W1. cbn [sent_sid]. rewrite N.eqb_refl, S1sid. reflexivity.
+      * intros id Hne. rewrite AO. rewrite st_of_spec_sent by exact W1. cbn [sent_sid].
+        replace (sf_sid fr =? id) with false by lia. apply sdrift_next; [exact W | exact Hne].
+      * unfold R_block. rewrite F9. apply (block_after c s fr ec' _ _ SQ); [lia | exact (S_blk _ _ _ _ HS)].
+      * rewrite AO, goaway_spec_sent. unfold s1. rewrite goaway_spec_next. cbn [conn_err]. rewrite orb_false_r, F8. exact (S_ga _ _ _ _ HS).
+      * rewrite AO, highest_spec_sent by exact W1. rewrite S1hi, F6. reflexivity.
+      * intros Hne _. left. rewrite DE, F9, EC. reflexivity.
+      * intros st H. rewrite F1 in H. cbn [ph_next]. replace (st_id st =? sf_sid fr) with false by (pose proof (NotIn st H); lia).
+        exact (S_ph _ _ _ _ HS st H).
+      * intros Hc id O L. rewrite F6 in L. cbn [ph_next]. replace (id =? sf_sid fr) with false by lia.
+        apply (S_new _ _ _ _ HS); [congruence | exact O | lia].
+    + intros sid rq [H|[]]; discriminate.
+Qed.
+
+Lemma ec'_hdr c fr ec' : seq_ok c fr ec' -> sf_kind fr = KHeaders \/ sf_kind fr = KCont ->
+  ec' = if flag_has (sf_flags fr) FL_EH then 0 else sf_sid fr.
+Proof.
+  intros [(_ & K & ->)|(_ & K & _ & ->)] [H|H]; try congruence.
+  rewrite H. cbn [fkind_eqb andb]. destruct (flag_has _ _); reflexivity.
+Qed.
+
+Lemma receive_closed w f : RS.receive (RS.Closed w) f = RS.Closed w.
+Proof. unfold RS.receive. destruct (RS.f_kind f); reflexivity. Qed.
+
+(* a header block frame on a stream we reset: decoded and dropped *)
+Lemma G_sl_discard c s ph fr ec' :
+  Sim c s ph -> sc_sl_done c = false -> seq_ok c fr ec' -> N.odd (sf_sid fr) = true -> tbl c (sf_sid fr) = None ->
+  sf_kind fr = KHeaders \/ sf_kind fr = KCont -> sf_sid fr <= sc_highestID c ->
+  RS.verdicts s (RS.Frame (abs_frame fr)) = RS.VIgnore :: RS.block_errors ->
+  feed c (IIn (RFrame fr)) = fst (discard_or_break (discard_header_block dec_field cfg (upd_expectCont c ec') fr)) ->
+  G c s ph (RFrame fr) (feed c (IIn (RFrame fr))).
+Proof.
+  intros HS Hsl SQ Od Tn KK Hle V E.
+  pose proof (S_aux _ _ _ _ HS) as [AT AH]. pose proof (A_wl _ _ AT) as Hwl.
+  destruct (proj1 (unknown_state c s ph _ HS Od Tn) Hle) as [w Hw].
+  set (c1 := upd_expectCont c ec') in *.
+  destruct (discard_header_block_spec hstate dec_field cfg c1 fr) as [DD DE].
+  destruct (discard_header_block dec_field cfg c1 fr) as [cD [e|]] eqn:DH; cbn [fst snd] in DD, DE.
+  - apply (G_discard_break c s ph fr c1 cD e [] E DE DD); try reflexivity; try assumption.
+    + intros sid rq [].
+    + intros o [].
+    + left. destruct e as [code|code|]; cbn in DE; try contradiction; apply allowed_table; rewrite V.
+      * destruct DE as [-> | [-> | ->]]; reflexivity.
+      * reflexivity.
+  - cbn [discard_or_break fst cont] in E. destruct DD as (dv & di & dp & dn & DD).
+    apply (G_sl_quiet c s ph fr ec' cD []); try assumption.
+    + rewrite DD. repeat split.
+    + rewrite DD. exact Hsl.
+    + rewrite DD. reflexivity.
+    + rewrite DD. reflexivity.
+    + rewrite DD. reflexivity.
+    + reflexivity.
+    + intros sid rq [].
+    + left. right. rewrite V. reflexivity.
+    + rewrite Hw. apply receive_closed.
+    + rewrite DE. destruct (flag_has _ _); [right; left; reflexivity | right; right; split; [reflexivity | exact Hle]].
+    + intros _. rewrite DE. symmetry. apply (ec'_hdr c fr ec' SQ KK).
+    + intros _ L. lia.
+Qed.
+
 End Sl.
